@@ -140,8 +140,8 @@ type model struct {
 	// shadow copy of the ack store per chain: key -> value
 	acks []map[string]string
 	// accepted receive triples per chain
-	received []map[string]int
-	snaps    []*snap
+	received  []map[string]int
+	snaps     []*snap
 	out, bind map[string]*big.Int
 	// counter expectations
 	counterExp   []uint64
